@@ -13,25 +13,32 @@
 (*      transaction at CopyInResponse and at CopyDone),                      *)
 (*      "refused_request_leaves_waiting" (a request that is refused before   *)
 (*      any server is involved - no such shard, no connection within the      *)
-(*      timeout - leaves the client shown as waiting).                        *)
+(*      timeout - leaves the client shown as waiting),                       *)
+(*      "cancel_registers_client" (the short-lived task that serves a        *)
+(*      CancelRequest registers itself and is never removed).                 *)
 (***************************************************************************)
 EXTENDS Integers, FiniteSets, TLC
 
 CONSTANTS Clients, MaxOps, Dev
 VARIABLES conn, state, q, x,      \* ledger: connected clients, true state, requests, transactions
           reg, rstate, rq, rx,    \* registries
+          ghosts,                 \* registry rows that belong to no client at all
           nops
-vars == <<conn, state, q, x, reg, rstate, rq, rx, nops>>
+vars == <<conn, state, q, x, reg, rstate, rq, rx, ghosts, nops>>
 Z == [c \in Clients |-> 0]
 Init == /\ conn = {} /\ state = [c \in Clients |-> "none"] /\ q = Z /\ x = Z
-        /\ reg = {} /\ rstate = [c \in Clients |-> "none"] /\ rq = Z /\ rx = Z /\ nops = 0
+        /\ reg = {} /\ rstate = [c \in Clients |-> "none"] /\ rq = Z /\ rx = Z /\ ghosts = 0 /\ nops = 0
 
 Op == nops < MaxOps /\ nops' = nops + 1
 
 Connect(c) == /\ Op /\ c \notin conn /\ conn' = conn \cup {c} /\ state' = [state EXCEPT ![c] = "idle"]
               /\ reg' = reg \cup {c} /\ rstate' = [rstate EXCEPT ![c] = "idle"]
               /\ q' = [q EXCEPT ![c] = 0] /\ x' = [x EXCEPT ![c] = 0] /\ rq' = [rq EXCEPT ![c] = 0] /\ rx' = [rx EXCEPT ![c] = 0]
-FailedLogin(c) == /\ Op /\ c \notin conn /\ UNCHANGED <<conn, state, q, x, reg, rstate, rq, rx>>
+              /\ UNCHANGED ghosts
+FailedLogin(c) == /\ Op /\ c \notin conn /\ UNCHANGED <<conn, state, q, x, reg, rstate, rq, rx, ghosts>>
+\* a CancelRequest connection (valid key or not) is not a client: it comes and goes without a trace in the registries
+CancelConn == /\ Op /\ ghosts' = ghosts + (IF "cancel_registers_client" \in Dev THEN 1 ELSE 0)
+              /\ UNCHANGED <<conn, state, q, x, reg, rstate, rq, rx>>
 
 \* a request inside a transaction (kind: "stmt" keeps it open, "last" ends it, "copy" = COPY FROM STDIN .. CopyDone alone)
 Request(c, kind) ==
@@ -42,14 +49,14 @@ Request(c, kind) ==
      ELSE /\ state' = [state EXCEPT ![c] = "idle"] /\ rstate' = [rstate EXCEPT ![c] = "idle"]
           /\ x' = [x EXCEPT ![c] = @ + 1]
           /\ rx' = [rx EXCEPT ![c] = @ + (IF kind = "copy" /\ "copy_counts_twice" \in Dev THEN 2 ELSE 1)]
-  /\ UNCHANGED <<conn, reg>>
+  /\ UNCHANGED <<conn, reg, ghosts>>
 
 \* a request outside a transaction that the pooler refuses before a server is involved: the client is idle again,
 \* nothing was executed, nothing is counted
 Refused(c) ==
   /\ Op /\ c \in conn /\ state[c] = "idle"
   /\ rstate' = [rstate EXCEPT ![c] = IF "refused_request_leaves_waiting" \in Dev THEN "waiting" ELSE "idle"]
-  /\ UNCHANGED <<conn, state, q, x, reg, rq, rx>>
+  /\ UNCHANGED <<conn, state, q, x, reg, rq, rx, ghosts>>
 
 \* the client leaves: how = "clean" (Terminate / EOF) or "abnormal" (its task ends by panic or an early error)
 Leave(c, how) ==
@@ -57,14 +64,14 @@ Leave(c, how) ==
   /\ conn' = conn \ {c} /\ state' = [state EXCEPT ![c] = "none"]
   /\ IF how = "abnormal" /\ "abnormal_exit_keeps_row" \in Dev THEN UNCHANGED <<reg, rstate>>
      ELSE reg' = reg \ {c} /\ rstate' = [rstate EXCEPT ![c] = "none"]
-  /\ UNCHANGED <<q, x, rq, rx>>
+  /\ UNCHANGED <<q, x, rq, rx, ghosts>>
 
 Next == \E c \in Clients : Connect(c) \/ FailedLogin(c) \/ (\E k \in {"stmt", "last", "copy"} : Request(c, k))
-                            \/ (\E h \in {"clean", "abnormal"} : Leave(c, h)) \/ Refused(c)
+                            \/ (\E h \in {"clean", "abnormal"} : Leave(c, h)) \/ Refused(c) \/ CancelConn
 Spec == Init /\ [][Next]_vars
 
 \* C18 at quiescent points (every state of this model is one)
-RowsAreClients == reg = conn
+RowsAreClients == reg = conn /\ ghosts = 0
 StatesTrue == \A c \in conn : rstate[c] = state[c]
 CountsTrue == \A c \in conn : rq[c] = q[c] /\ rx[c] = x[c]
 =============================================================================
